@@ -16,7 +16,7 @@
 //! `take_errors()` is empty.
 use hx_c03::{
     dynv::{transition_tags, Gen, Toks, TyD, ValD},
-    interp::{at::*, find_shape, register, registry, shape_of, DynCase, KeyedList},
+    interp::{at::*, find_shape, register, registry, shape_of, Cl, DynCase, KeyedList, Ow, Sp},
     show::{norm_nodes, show_kids, Names},
 };
 use hx_common::*;
@@ -26,7 +26,12 @@ use std::{
 };
 use tachys::{
     either::{Either, EitherOf3},
-    html::element::{self as el, HtmlElement},
+    html::{
+        attribute::{self as attr, Attr},
+        class::Class,
+        element::{self as el, HtmlElement},
+        style::Style,
+    },
     renderer::native_dom::{self as nd, Element, Node},
     view::any_view::AnyView,
 };
@@ -88,6 +93,61 @@ fn install_shapes() {
         Either<[S; 2], ([S; 0], [S; 2])>,
         // node-less OLD branches (the new branch is never mounted: F-C03-6)
         Either<[S; 0], S>, Option<[S; 0]>, Either<([S; 0], [S; 0]), Span<(), (S,)>>, EitherOf3<[S; 0], S, ()>,
+        // a whole-value style that can be absent
+        Div<(OSty,), ()>, Div<(Cls, OSty), ()>, Div<(OSty, IdS), (S,)>, Div<(OSty, TCls), ()>,
+        // the other Rust string types of attribute values (&'static str, Cow, Arc<str>, Oco)
+        Div<(Attr<attr::Title, FR>,), ()>, Div<(Attr<attr::Title, FA>,), ()>, Div<(Attr<attr::Title, FO>,), ()>,
+        Div<(Attr<attr::Title, Option<FR>>,), ()>, Div<(Attr<attr::Title, Option<FA>>,), ()>,
+        Div<(Attr<attr::Title, Option<FO>>, IdS), ()>,
+        Div<(Class<FR>,), ()>, Div<(Class<FW>,), ()>, Div<(Class<FA>,), ()>, Div<(Class<FO>,), ()>,
+        Div<(Class<Option<FR>>,), ()>, Div<(Class<Option<FW>>,), ()>, Div<(Class<Option<FA>>,), ()>,
+        Div<(Class<Option<FO>>,), ()>, Div<(Class<Option<FA>>, Style<Option<FA>>), ()>,
+        Div<(Style<FR>,), ()>, Div<(Style<FA>,), ()>, Div<(Style<FO>,), ()>,
+        Div<(Style<Option<FR>>,), ()>, Div<(Style<Option<FA>>,), ()>, Div<(Style<Option<FO>>,), ()>,
+        Div<(Cls, Style<Option<FA>>), ()>, Div<(Class<FR>, Style<Option<FR>>, IdS), (S,)>,
+        Div<(Style<(FR, FR)>,), ()>, Div<(Style<(S, FA)>,), ()>, Div<(Style<(FA, S)>,), ()>, Div<(Style<(FR, FO)>,), ()>,
+        Div<(Style<(S, Option<FR>)>,), ()>, Div<(Style<(FR, Option<FA>)>,), ()>, Div<(Style<(FA, Option<FO>)>,), ()>,
+        Div<(Style<(FR, FR)>, Style<(S, Option<FA>)>), ()>,
+        // every item through into_cloneable() / into_cloneable_owned() (what spreading and
+        // into_any() / into_owned() do to the attributes of an element)
+        Div<(Cl<IdS>,), ()>, Div<(Ow<IdS>,), ()>, Div<(Cl<TitleO>,), ()>, Div<(Ow<TitleO>,), ()>,
+        Div<(Cl<HiddenB>, Ow<LangO>), (S,)>, Div<(Ow<Attr<attr::Title, Option<FR>>>,), ()>,
+        Div<(Cl<Cls>,), ()>, Div<(Ow<Cls>,), ()>, Div<(Cl<OCls>,), ()>, Div<(Ow<OCls>,), ()>,
+        Div<(Cl<TCls>,), ()>, Div<(Ow<TCls>, Ow<TCls>), ()>, Div<(Ow<Class<FR>>,), ()>, Div<(Ow<Class<Option<FR>>>,), ()>,
+        Div<(Cl<Class<FW>>,), ()>, Div<(Ow<Class<Option<FW>>>,), ()>,
+        Div<(Cl<Sty>,), ()>, Div<(Ow<Sty>,), ()>, Div<(Cl<OSty>,), ()>, Div<(Ow<OSty>,), ()>,
+        Div<(Ow<Style<FR>>,), ()>, Div<(Ow<Style<Option<FR>>>,), ()>, Div<(Cl<Style<Option<FR>>>,), ()>,
+        Div<(Cl<PSty>,), ()>, Div<(Ow<PSty>,), ()>, Div<(Cl<OPSty>,), ()>, Div<(Ow<OPSty>,), ()>,
+        Div<(Ow<Style<(FR, Option<FR>)>>,), ()>,
+        Div<(Ow<Cls>, Ow<OSty>), ()>, Div<(Ow<OCls>, Ow<OSty>, Ow<IdS>), (S,)>, Div<(Cl<OCls>, Cl<OSty>), ()>,
+        Option<Div<(Ow<OCls>, Ow<OSty>), ()>>,
+        // attribute spreading: `view.add_any_attr(attr)` over tuples / Vec / Option / Either (each
+        // member gets a clone of `into_cloneable()`; text members ignore it), nested, and over one element
+        Sp<Cls, (Div<(), ()>, Span<(), (S,)>)>, Sp<OCls, (Div<(IdS,), ()>, S)>, Sp<TCls, (Div<(), ()>, Div<(TCls,), ()>)>,
+        Sp<OSty, Vec<Div<(), ()>>>, Sp<OSty, (Div<(Cls,), ()>, P<(), (S,)>)>, Sp<Sty, Vec<Li<(), (S,)>>>,
+        Sp<PSty, Either<Div<(), ()>, P<(), (S,)>>>, Sp<OPSty, Option<Div<(IdS,), ()>>>, Sp<TitleO, Vec<Li<(), (S,)>>>,
+        Sp<IdS, (S, Span<(), (S,)>, S)>, Sp<HiddenB, [Div<(), ()>; 2]>,
+        Sp<OCls, Sp<OSty, (Div<(), ()>, Div<(), ()>)>>, Sp<OSty, Div<(Cls,), ()>>, Sp<Class<Option<FR>>, Vec<Div<(), ()>>>,
+        Sp<Style<Option<FR>>, (Div<(Cls,), ()>, Div<(), ()>)>, Sp<Cls, Div<(), (Div<(), ()>,)>>,
+        // ... and over an AnyView (`AnyViewWithAttrs`: the attributes are erased, `AnyAttribute`)
+        Sp<Cls, AnyView>, Sp<OCls, AnyView>, Sp<TCls, AnyView>, Sp<OSty, AnyView>, Sp<PSty, AnyView>, Sp<Attr<attr::Dir, Option<S>>, AnyView>,
+        Sp<OCls, Sp<OSty, AnyView>>, (S, Sp<OCls, AnyView>, S), Vec<Sp<OSty, AnyView>>,
+        // shapes of the corpus cases (corpus/C03/{toggle-names,style-names,attr-forms,spread}.ops)
+        Div<(TCls,), ()>, Div<(PSty, OPSty), ()>, Div<(OCls, OSty), ()>, Div<(Ow<TCls>, Cl<TCls>), ()>,
+        Div<(Class<FR>, Style<Option<FR>>), ()>, Div<(Class<FO>, Style<Option<FO>>), ()>, Div<(Class<FA>, Style<Option<FA>>), ()>,
+        Div<(Cl<Cls>, Cl<OSty>), ()>, Div<(Ow<Class<FR>>, Ow<Style<Option<FR>>>), ()>,
+        Div<(Cl<Class<FR>>, Cl<Style<Option<FR>>>), ()>, Div<(Ow<Class<FA>>, Ow<Style<Option<FA>>>), ()>,
+        Div<(OCls, IdS), ()>, Div<(Class<Option<FR>>, IdS), ()>, Div<(Class<Option<FW>>, IdS), ()>, Div<(Class<Option<FA>>, IdS), ()>,
+        Div<(Class<Option<FO>>, IdS), ()>, Div<(Ow<OCls>, IdS), ()>, Div<(Cl<Class<Option<FW>>>, IdS), ()>,
+        Div<(Ow<Class<Option<FR>>>, IdS), ()>,
+        Div<(TitleO, Cls), ()>, Div<(Attr<attr::Title, Option<FR>>, Cls), ()>, Div<(Attr<attr::Title, Option<FA>>, Cls), ()>,
+        Div<(Attr<attr::Title, Option<FO>>, Cls), ()>, Div<(Ow<TitleO>, Cls), ()>, Div<(Cl<Attr<attr::Title, Option<FR>>>, Cls), ()>,
+        Div<(Style<(FR, FR)>, Style<(FR, Option<FR>)>), ()>, Div<(Style<(S, FA)>, Style<(S, Option<FA>)>), ()>,
+        Div<(Style<(FA, S)>, Style<(FA, Option<S>)>), ()>, Div<(Style<(S, FO)>, Style<(S, Option<FO>)>), ()>,
+        Div<(Ow<PSty>, Ow<OPSty>), ()>, Div<(Ow<Style<(FR, FR)>>, Ow<Style<(FR, Option<FR>)>>), ()>, Div<(Cl<PSty>, Cl<OPSty>), ()>,
+        Sp<OPSty, Either<Div<(), ()>, P<(), (S,)>>>,
+        // ... and of hooks/fix-c03-8.corpus.ops
+        P<(), (S,)>, Vec<Div<(), ()>>, (Div<(), ()>, Div<(), ()>), Span<(), (S,)>,
         // keyed
         KeyedList, (S, KeyedList, S), Ul<(IdS,), (KeyedList,)>, Option<KeyedList>,
     ]);
@@ -248,10 +308,8 @@ fn case_tags(text: &str) -> Vec<BTreeSet<String>> {
                 let mut t = Toks::new(rest.to_vec());
                 ty = TyD::parse(&mut t);
                 prev = ty.as_ref().and_then(|ty| ValD::parse(ty, &mut t));
-                if let (Some(tags), Some(v)) = (out.last_mut(), prev.as_ref()) {
-                    // constructors present
-                    transition_tags(v, v, &mut BTreeSet::new());
-                    let _ = tags;
+                if let (Some(tags), Some(ty)) = (out.last_mut(), ty.as_ref()) {
+                    ty.type_tags(tags);
                 }
             }
             ["rebuild", rest @ ..] => {
@@ -286,9 +344,10 @@ fn gen(seed: u64, n: usize, path: &str, tier: &str) -> std::io::Result<()> {
     let lean_keyed = std::env::var("C03_KEYED").map(|v| v != "0").unwrap_or(LEAN_HAS_KEYED);
     let tops: Vec<TyD> =
         registry().iter().map(|s| s.ty.clone()).filter(|t| lean_keyed || !t.has_keyed()).collect();
-    let mut any_tys: Vec<TyD> = tops.iter().filter(|t| !t.has_arc()).cloned().collect();
+    let mut any_tys: Vec<TyD> = tops.iter().filter(|t| !t.has_arc() && !t.has_oco() && !t.has_spread_any()).cloned().collect();
     any_tys.sort_by_key(|t| t.depth());
     let max_rebuilds = if tier == "thorough" { 6 } else { 4 };
+    let spread_any_ok = std::env::var("C03_SPREAD_ANY").map(|v| v != "0").unwrap_or(SPREAD_ANY_REPAIRED);
     for i in 0..n {
         let ty = rng.pick(&tops).clone();
         // the first len(tops) cases walk through every shape once
@@ -296,7 +355,13 @@ fn gen(seed: u64, n: usize, path: &str, tier: &str) -> std::io::Result<()> {
         let tame = rng.chance(3, 4);
         writeln!(f, "case g{i}")?;
         writeln!(f, "init {} {}", rng.pick(SIBS), rng.pick(SIBS))?;
-        let mut g = Gen { rng: &mut rng, any_tys: &any_tys, tame_attrs: tame };
+        let mut g = Gen {
+            rng: &mut rng,
+            any_tys: &any_tys,
+            tame_attrs: tame,
+            spread_any_ok: spread_any_ok,
+            under_spread: false,
+        };
         let mut cur = g.val(&ty, None, 4);
         writeln!(f, "build {} {}", ty.show(), cur.show())?;
         let k = 1 + g.rng.below(max_rebuilds);
@@ -311,6 +376,13 @@ fn gen(seed: u64, n: usize, path: &str, tier: &str) -> std::io::Result<()> {
     }
     f.flush()
 }
+
+/// F-C03-8 (`AnyViewWithAttrs::rebuild` keeps the attribute states of the elements the `AnyView`
+/// showed BEFORE the rebuild: a content of another type, or several top-level elements, lose /
+/// mis-pair the spread attributes) is repaired in /repo (hooks/fix-c03-8.patch).  While `false`
+/// the generator keeps the type of an `AnyView` that receives spread attributes and gives it at
+/// most one top-level element; `C03_SPREAD_ANY=1` overrides.
+const SPREAD_ANY_REPAIRED: bool = false;
 
 /// whether lean/Driver/C03.lean understands the `k` (keyed) type
 const LEAN_HAS_KEYED: bool = false;
